@@ -26,7 +26,7 @@ def class_reprs(info):
     return reps
 
 
-EXTRA_CHARS = [0x09, 0x0D, 0x3000, 0x4E2D, 0x17F, 0x131, 0x1F600, ord("$"), ord("@"), ord("?"), ord(":"), ord("_"),
+EXTRA_CHARS = [0x09, 0x0D, 0x3000, 0xA0, 0x200B, 0xFEFF, 0xFF0C, 0xFF08, 0x2028, 0x4E2D, 0x17F, 0x131, 0x1F600, ord("$"), ord("@"), ord("?"), ord(":"), ord("_"),
                ord("e"), ord("E"), ord("9"), ord("f"), ord("F"), ord("z"), ord("Z"), ord("s"), ord("T"), ord("n")]
 
 FRAGMENTS = ["select", "SELECT", "from", "a", "b", "x", "B", "X", "t1", "_c", "null", "NULL", "True", "fAlse", "ſelect",
@@ -35,7 +35,8 @@ FRAGMENTS = ["select", "SELECT", "from", "a", "b", "x", "B", "X", "t1", "_c", "n
              "<=>", "<=", ">=", "<>", "!=", "<<", ">>", "&&", "||", "<", ">", "!", "&", "|", "-", "/", "~", "*", "^",
              ",", ";", "=", "+", ".", "%", "(", ")", "[", "]", "((", "))", "()", "[]",
              "# c\n", "-- c\n", "/* c */", "/**/", "/* * */", "/* a*b */", "#", "--", "/*", "*/", "#{p}", "#{", "}", "{",
-             " ", "  ", "\n", "\t", "\r\n", "　", "\\", "'", "\"", "`", "中文", "e3", "E", "\xe9"]
+             " ", "  ", "\n", "\t", "\r\n", "　", "\\", "'", "\"", "`", "中文", "e3", "E", "\xe9",
+             "'a\u00a0b'", "`x\u200by`", "-- \ufeff c\n", "\u00a0", "'\uff0c\uff08\uff09'"]
 
 
 def gen_exhaustive(info, maxlen):
